@@ -115,6 +115,11 @@ where
 {
     use hu::uistv1_server::*;
     let o = s(&op["op"]);
+    let req_text: Value = match o.as_str() {
+        "insert" => Value::from(serde_json::to_string(&InsertOrderRequest { order: uist_order_of(&op["order"]) }).unwrap()),
+        "delete" => Value::from(serde_json::to_string(&DeleteOrderRequest { order_id: u(&op["order_id"]) }).unwrap()),
+        _ => Value::Null,
+    };
     let req = match o.as_str() {
         "tick" => test::TestRequest::get().uri(&format!("/backtest/{}/tick", u(&op["id"]))),
         "fetch" => test::TestRequest::get().uri(&format!("/backtest/{}/fetch_quotes", u(&op["id"]))),
@@ -161,7 +166,7 @@ where
             Value::Null
         }
     };
-    json!({ "some": decoded, "status": status, "raw": serde_json::from_slice::<Value>(&body).unwrap_or(Value::Null) })
+    json!({ "some": decoded, "status": status, "text": String::from_utf8_lossy(&body), "req_text": req_text })
 }
 
 fn run_uist(sc: &Value) -> Value {
@@ -262,6 +267,11 @@ where
 {
     use hj::jurav1_server::*;
     let o = s(&op["op"]);
+    let req_text: Value = match o.as_str() {
+        "insert" => Value::from(serde_json::to_string(&InsertOrderRequest { order: jura_order_of(&op["order"]) }).unwrap()),
+        "delete" => Value::from(serde_json::to_string(&DeleteOrderRequest { asset: u(&op["asset"]), order_id: u(&op["order_id"]) }).unwrap()),
+        _ => Value::Null,
+    };
     let req = match o.as_str() {
         "tick" => test::TestRequest::get().uri(&format!("/backtest/{}/tick", u(&op["id"]))),
         "fetch" => test::TestRequest::get().uri(&format!("/backtest/{}/fetch_quotes", u(&op["id"]))),
@@ -284,7 +294,7 @@ where
     let decoded = match o.as_str() {
         "tick" => {
             let r: TickResponse = serde_json::from_slice(&body).expect("TickResponse");
-            j_tick_json(r.has_next, &r.executed_trades, &r.inserted_orders, None)
+            j_tick_json(r.has_next, &r.executed_trades, &r.inserted_orders, Some(&r.triggered_order_ids))
         }
         "fetch" => {
             let r: FetchQuotesResponse = serde_json::from_slice(&body).expect("FetchQuotesResponse");
@@ -303,7 +313,7 @@ where
             Value::Null
         }
     };
-    json!({ "some": decoded, "status": status, "raw": serde_json::from_slice::<Value>(&body).unwrap_or(Value::Null) })
+    json!({ "some": decoded, "status": status, "text": String::from_utf8_lossy(&body), "req_text": req_text })
 }
 
 fn run_jura(sc: &Value) -> Value {
